@@ -20,6 +20,7 @@ pub mod elf;
 pub mod nopanic;
 pub mod realbin;
 pub mod xseq;
+pub mod longprog;
 
 use crate::hv::e1::Case;
 use crate::hv::known::Known;
@@ -52,6 +53,10 @@ pub fn build(id: &str, tier: Tier, seed: u64, known: &[Known]) -> Option<Prop> {
     // cross-form histories with forced collisions (state carried from one operation into a different one)
     if let Some(pid) = ["C01", "C02", "C03", "C04", "C05", "C06", "C07", "C08", "C20"].iter().find(|x| **x == id) {
         p.units.extend(xseq::units(pid, tier));
+    }
+    // long programs in lock step (real compiler output, generated loops, a machine that has been through the loader)
+    if let Some(pid) = ["C01", "C02", "C03", "C04", "C05", "C06", "C07", "C08"].iter().find(|x| **x == id) {
+        p.units.extend(longprog::units(pid, tier));
     }
     // witnesses of known findings and regression cases of fixed findings run first, in both tiers
     let ws: Vec<(bool, serde_json::Value)> = known.iter().filter(|k| k.property == id).filter_map(|k| k.witness.clone().map(|w| (k.is_known, w))).collect();
